@@ -259,6 +259,8 @@ def map_update(ex, ins):
     hs_val = 'Arr:Map:%s>%s' % (ks, vs)
     vc.heap_sorts[hn + '.has'] = hs_has
     vc.heap_sorts[hn + '.val'] = hs_val
+    if (ks, k.term) not in vc.inst_terms:
+        vc.inst_terms.append((ks, k.term))
     ex.oblige('nil', 'assignment to entry in nil map', ex.reach, not_(eq(m.term, '0')), ['C03'], ins.get('line', 0))
     vc.assume(not_(eq(m.term, '0')), ex.reach)
     # frame: an assigns clause cannot name a map, so a function with one may only update maps it allocated itself
@@ -275,7 +277,22 @@ def range_(ex, ins):
     xtd = ex.prog.under(ins['x']['t'])
     if xtd['k'] != 'map':
         raise Unsupported('range over string')
-    ex.vals[ins['n']] = ('mapiter', ex.val(ins['x']), ins['x']['t'])
+    vc = ex.vc
+    m = ex.val(ins['x'])
+    ks = vc.sort_of(xtd['key'])
+    vs = vc.sort_of(xtd['elem'])
+    hn = 'M.%s.%s' % (san(ks), san(vs))
+    hs_has = 'Arr:Map:%s>Bool' % ks
+    vc.heap_sorts[hn + '.has'] = hs_has
+    vc.heap_sorts[hn + '.val'] = 'Arr:Map:%s>%s' % (ks, vs)
+    # ghost: the set of keys this iteration has produced so far (`visited(m, k)` in loop invariants)
+    gn = 'G.seen.%s' % san(ks)
+    vc.heap_sorts[gn] = hs_has
+    it = new_ref(ex, ins['n'] + '$it')
+    empty = '((as const (Array %s Bool)) false)' % vc.ssort(ks)
+    ex.st.set(gn, vc.define(gn, hs_has, '(store %s %s %s)' % (ex.st.get(gn, hs_has), it, empty)))
+    vc.__dict__.setdefault('mapiters', {})[m.term] = (it, gn, hs_has)
+    ex.vals[ins['n']] = ('mapiter', m, ins['x']['t'], it, ex.st.get(hn + '.has', hs_has))
 
 
 def next_(ex, ins):
@@ -284,7 +301,7 @@ def next_(ex, ins):
     it = ex.vals.get(ins['iter']['n'])
     if ins.get('isstring') or not (isinstance(it, tuple) and it[0] == 'mapiter'):
         raise Unsupported('range iteration over a string')
-    _, m, mts = it
+    _, m, mts, itref, has0 = it
     xtd = ex.prog.under(mts)
     ks = vc.sort_of(xtd['key'])
     vs = vc.sort_of(xtd['elem'])
@@ -299,6 +316,18 @@ def next_(ex, ins):
     has = '(select (select %s %s) %s)' % (ex.st.get(hn + '.has', hs_has), m.term, k)
     val = '(select (select %s %s) %s)' % (ex.st.get(hn + '.val', hs_val), m.term, k)
     vc.assume(imp(ok, and_(not_(eq(m.term, '0')), has, eq(v, val))), ex.reach)
+    # every entry is produced at most once; when the iteration ends every entry has been produced - stated only if no map of
+    # this type has been updated since the range statement (an entry added or removed during the iteration may be skipped)
+    gn = 'G.seen.%s' % san(ks)
+    vc.heap_sorts[gn] = hs_has
+    G = ex.st.get(gn, hs_has)
+    seen = '(select %s %s)' % (G, itref)
+    if (ks, k) not in vc.inst_terms:
+        vc.inst_terms.append((ks, k))
+    vc.assume(imp(ok, not_('(select %s %s)' % (seen, k))), ex.reach)
+    if ex.st.get(hn + '.has', hs_has) == has0:
+        vc.assume_forall(and_(ex.reach, not_(ok)), lambda j, seen=seen, m=m, has0=has0: imp('(select (select %s %s) %s)' % (has0, m.term, j), '(select %s %s)' % (seen, j)), sort=ks)
+    ex.st.set(gn, vc.define(gn, hs_has, '(store %s %s (ite %s (store %s %s true) %s))' % (G, itref, ok, seen, k, seen)))
     kv, vv = V(k, ks, xtd['key']), V(v, vs, xtd['elem'])
     vc.range_assume(kv, ex.reach)
     vc.range_assume(vv, ex.reach)
